@@ -1038,6 +1038,12 @@ pub fn mutate(
                     }
                     _ => None,
                 }),
+            Kind::SendBlocksProof | Kind::SendTransactionsProof if spec.op % 3 != 2 => {
+                match proof_from_another_point_of_view(sim, p, data, spec.op, &mut rng) {
+                    Some(x) => Some(x),
+                    None => Some((flip_bytes(&mut rng, data), "byte damage".into())),
+                }
+            }
             _ => {
                 // proofs of blocks / transactions: structured byte damage inside the message
                 Some((flip_bytes(&mut rng, data), "byte damage".into()))
@@ -1056,6 +1062,82 @@ pub fn mutate(
         }
     }
     out
+}
+
+/// The deviating peer answers the blocks / transactions proof request as an honest node of
+/// *another* chain state would: self-consistent headers and MMR proof, but against a last
+/// header the client never named in its request (a side-fork tip, or an ancestor of the tip).
+fn proof_from_another_point_of_view(
+    sim: &Sim,
+    p: usize,
+    data: &Bytes,
+    op: u32,
+    rng: &mut Rng,
+) -> Option<(Bytes, String)> {
+    let world = &sim.world;
+    let own = sim.peers[p].view;
+    // candidate views: the tip of every other branch, or a lower height of the own branch
+    let mut views: Vec<View> = Vec::new();
+    for b in 0..world.branches.len() {
+        if b != own.branch {
+            views.push(View { branch: b, height: world.tip_number(b) });
+        }
+    }
+    if views.is_empty() || op % 3 == 1 {
+        if own.height >= 2 {
+            views.push(View { branch: own.branch, height: rng.range(1, own.height - 1) });
+        }
+    }
+    if views.is_empty() {
+        return None;
+    }
+    let view = *rng.pick(&views);
+    let last_hash = world.block(view.branch, view.height).hash();
+    let m = packed::LightClientMessageReader::from_compatible_slice(data).ok()?;
+    match m.to_enum() {
+        packed::LightClientMessageUnionReader::SendBlocksProof(r) => {
+            let mut hashes: Vec<Byte32> = r.headers().iter().map(|h| h.to_entity().calc_header_hash()).collect();
+            hashes.extend(r.missing_block_hashes().iter().map(|h| h.to_entity()));
+            blocks_pov(world, view, last_hash, hashes, r.count_extra_fields() > 0)
+        }
+        packed::LightClientMessageUnionReader::SendTransactionsProof(r) => {
+            let mut hashes: Vec<Byte32> = Vec::new();
+            for fb in r.filtered_blocks().iter() {
+                hashes.extend(fb.transactions().iter().map(|t| t.to_entity().calc_tx_hash()));
+            }
+            hashes.extend(r.missing_tx_hashes().iter().map(|h| h.to_entity()));
+            txs_pov(world, view, last_hash, hashes, r.count_extra_fields() > 0)
+        }
+        _ => None,
+    }
+}
+
+fn blocks_pov(world: &crate::chain::World, view: View, last_hash: Byte32, hashes: Vec<Byte32>, v1: bool) -> Option<(Bytes, String)> {
+    if hashes.is_empty() {
+        return None;
+    }
+    let req = packed::GetBlocksProof::new_builder().last_hash(last_hash).block_hashes(hashes.pack()).build();
+    match server::blocks_proof(world, view, &req, v1) {
+        server::LcAnswer::Reply(m) => Some((
+            m.as_bytes(),
+            format!("blocks proof as seen from branch {} #{} instead of the requested last state", view.branch, view.height),
+        )),
+        _ => None,
+    }
+}
+
+fn txs_pov(world: &crate::chain::World, view: View, last_hash: Byte32, hashes: Vec<Byte32>, v1: bool) -> Option<(Bytes, String)> {
+    if hashes.is_empty() {
+        return None;
+    }
+    let req = packed::GetTransactionsProof::new_builder().last_hash(last_hash).tx_hashes(hashes.pack()).build();
+    match server::transactions_proof(world, view, &req, v1) {
+        server::LcAnswer::Reply(m) => Some((
+            m.as_bytes(),
+            format!("transactions proof as seen from branch {} #{} instead of the requested last state", view.branch, view.height),
+        )),
+        _ => None,
+    }
 }
 
 pub fn lie_filters(_sim: &mut Sim, _p: usize, m: packed::BlockFilters) -> packed::BlockFilters {
